@@ -317,10 +317,11 @@ Proof.
   - contradiction Hh; reflexivity.
 Qed.
 
-Lemma handle_safe : forall st c, safe (fst (handle repaired st c)).
+Lemma handle_safe : forall st c, ns_locked st = false -> safe (fst (handle repaired st c)).
 Proof.
-  intros st c. destruct c as [limit|e sigs|t present| |f snap blocks]; cbn [handle].
-  - cbn [fst]. apply safe_bind; [apply sync_request_safe|intros; apply safe_ok].
+  intros st c L. destruct c as [limit de|e sigs|t present| |f snap blocks]; cbn [handle]; rewrite L.
+  - destruct (negb (gate (ns_state st) true)); [apply safe_err|].
+    cbn [fst]. apply safe_bind; [apply sync_request_safe|intros; apply safe_ok].
   - destruct (negb (gate (ns_state st) false)); [apply safe_err|].
     destruct (negb (we_read_ok e)); [apply safe_err|].
     pose proof (event_verify_safe (we_itxs e) (we_bsigs e) (we_creator e) (we_sig e) (we_sigok e)) as [Hp Hh].
@@ -331,8 +332,9 @@ Proof.
       destruct (process_sigpool repaired (ns_pool st ++ sigs)) as [o rest]. cbn [fst] in *. subst o. apply safe_ok.
     + contradiction Hp; reflexivity.
     + contradiction Hh; reflexivity.
-  - cbn [fst]. apply safe_bind; [apply join_request_safe|intros; apply safe_ok].
-  - cbn [fst]. destruct (gate (ns_state st) false); [apply safe_ok|apply safe_err].
+  - destruct (negb (gate (ns_state st) false)); [apply safe_err|].
+    cbn [fst]. apply safe_bind; [apply join_request_safe|intros; apply safe_ok].
+  - destruct (negb (gate (ns_state st) false)); [apply safe_err|apply safe_ok].
   - destruct (negb (ns_state st =? 1)); [apply safe_err|].
     cbn [fx_restore fx_rehearse repaired andb].
     pose proof (ff_check_safe f) as [Hp Hh].
@@ -348,51 +350,83 @@ Lemma handle_blocks_unchanged : forall st c o st',
   (ns_blocks st' = ns_blocks st /\ ns_app st' = ns_app st) \/
   (o = Ok tt /\ exists f snap blocks, c = RFastForward f snap blocks).
 Proof.
-  intros st c o st' H. destruct c as [limit|e sigs|t present| |f snap blocks]; cbn [handle] in H.
-  - inversion H; subst; left; split; reflexivity.
-  - destruct (negb (gate (ns_state st) false)); [inversion H; subst; left; split; reflexivity|].
-    destruct (negb (we_read_ok e)); [inversion H; subst; left; split; reflexivity|].
+  intros st c o st' H.
+  assert (same : forall o0, (o0, st) = (o, st') ->
+          (ns_blocks st' = ns_blocks st /\ ns_app st' = ns_app st) \/
+          (o = Ok tt /\ exists f snap blocks, c = RFastForward f snap blocks)).
+  { intros o0 E; inversion E; subst; left; split; reflexivity. }
+  destruct c as [limit de|e sigs|t present| |f snap blocks]; cbn [handle] in H.
+  - destruct (negb (gate (ns_state st) true)); [eapply same; exact H|].
+    destruct (ns_locked st); eapply same; exact H.
+  - destruct (negb (gate (ns_state st) false)); [eapply same; exact H|].
+    destruct (ns_locked st); [eapply same; exact H|].
+    destruct (negb (we_read_ok e)); [eapply same; exact H|].
     destruct (event_verify repaired (we_itxs e) (we_bsigs e) (we_creator e) (we_sig e) (we_sigok e)) as [[|]| | |];
-      try (inversion H; subst; left; split; reflexivity).
-    destruct (negb (we_rest_ok e)); [inversion H; subst; left; split; reflexivity|].
+      try (eapply same; exact H).
+    destruct (negb (we_rest_ok e)); [eapply same; exact H|].
     destruct (process_sigpool repaired (ns_pool st ++ sigs)) as [o' rest].
     inversion H; subst; left; split; reflexivity.
-  - inversion H; subst; left; split; reflexivity.
-  - inversion H; subst; left; split; reflexivity.
-  - destruct (negb (ns_state st =? 1)); [inversion H; subst; left; split; reflexivity|].
+  - destruct (negb (gate (ns_state st) false)); [eapply same; exact H|].
+    destruct (ns_locked st); eapply same; exact H.
+  - destruct (negb (gate (ns_state st) false)); [eapply same; exact H|].
+    destruct (ns_locked st); eapply same; exact H.
+  - destruct (negb (ns_state st =? 1)); [eapply same; exact H|].
+    destruct (ns_locked st); [eapply same; exact H|].
     cbn [fx_restore fx_rehearse repaired andb] in H.
-    destruct (ff_check repaired f) as [[]| | |]; try (inversion H; subst; left; split; reflexivity).
-    destruct (negb (ff_insert_ok f)); [inversion H; subst; left; split; reflexivity|].
+    destruct (ff_check repaired f) as [[]| | |]; try (eapply same; exact H).
+    destruct (negb (ff_insert_ok f)); [eapply same; exact H|].
     inversion H; subst. right; split; [reflexivity|]. exists f, snap, blocks; reflexivity.
 Qed.
 
-(* state fields that no command changes *)
+(* state fields that no command changes; in particular the core lock is released on every path *)
 Lemma handle_frame : forall fx st c,
-  ns_state (snd (handle fx st c)) = ns_state st /\ ns_conf_limit (snd (handle fx st c)) = ns_conf_limit st.
+  ns_state (snd (handle fx st c)) = ns_state st /\ ns_conf_limit (snd (handle fx st c)) = ns_conf_limit st /\
+  ns_locked (snd (handle fx st c)) = ns_locked st.
 Proof.
-  intros fx st c. destruct c as [limit|e sigs|t present| |f snap blocks]; cbn [handle]; try (split; reflexivity).
-  - destruct (negb (gate (ns_state st) false)); [split; reflexivity|].
-    destruct (negb (we_read_ok e)); [split; reflexivity|].
+  intros fx st c.
+  destruct (ns_locked st) eqn:L;
+  destruct c as [limit de|e sigs|t present| |f snap blocks]; cbn [handle]; rewrite ?L.
+  - destruct (negb (gate (ns_state st) true)); cbn [snd]; rewrite ?L; repeat split.
+  - destruct (negb (gate (ns_state st) false)); cbn [snd]; rewrite ?L; repeat split.
+  - destruct (negb (gate (ns_state st) false)); cbn [snd]; rewrite ?L; repeat split.
+  - destruct (negb (gate (ns_state st) false)); cbn [snd]; rewrite ?L; repeat split.
+  - destruct (negb (ns_state st =? 1)); cbn [snd]; rewrite ?L; repeat split.
+  - destruct (negb (gate (ns_state st) true)); cbn [snd]; rewrite ?L; repeat split.
+  - destruct (negb (gate (ns_state st) false)); [cbn [snd]; rewrite ?L; repeat split|].
+    destruct (negb (we_read_ok e)); [cbn [snd]; rewrite ?L; repeat split|].
     destruct (event_verify fx (we_itxs e) (we_bsigs e) (we_creator e) (we_sig e) (we_sigok e)) as [[|]| | |];
-      try (split; reflexivity).
-    destruct (negb (we_rest_ok e)); [split; reflexivity|].
-    destruct (process_sigpool fx (ns_pool st ++ sigs)) as [o' rest]. split; reflexivity.
-  - destruct (negb (ns_state st =? 1)); [split; reflexivity|].
-    destruct (fx_restore fx); destruct (ff_check fx f) as [[]| | |]; try (split; reflexivity);
-      destruct (fx_rehearse fx && negb (ff_insert_ok f)); try (split; reflexivity);
-      destruct (negb (ff_insert_ok f)); split; reflexivity.
+      try solve [cbn [snd]; rewrite ?L; repeat split].
+    destruct (negb (we_rest_ok e)); [cbn [snd]; rewrite ?L; repeat split|].
+    destruct (process_sigpool fx (ns_pool st ++ sigs)) as [o' rest].
+    cbn [snd ns_state ns_conf_limit ns_locked]. rewrite ?L. repeat split.
+  - destruct (negb (gate (ns_state st) false)); cbn [snd]; rewrite ?L; repeat split.
+  - destruct (negb (gate (ns_state st) false)); cbn [snd]; rewrite ?L; repeat split.
+  - destruct (negb (ns_state st =? 1)); [cbn [snd]; rewrite ?L; repeat split|].
+    destruct (fx_restore fx); destruct (ff_check fx f) as [[]| | |];
+      try solve [cbn [snd set_app ns_state ns_conf_limit ns_locked]; rewrite ?L; repeat split];
+      destruct (fx_rehearse fx && negb (ff_insert_ok f));
+      try solve [cbn [snd set_app ns_state ns_conf_limit ns_locked]; rewrite ?L; repeat split];
+      destruct (negb (ff_insert_ok f)); cbn [snd set_app set_blocks ns_state ns_conf_limit ns_locked]; rewrite ?L; repeat split.
 Qed.
+
+Lemma handle_releases_lock : forall fx st c, ns_locked st = false -> ns_locked (snd (handle fx st c)) = false.
+Proof. intros fx st c L. destruct (handle_frame fx st c) as [_ [_ H]]. rewrite H. exact L. Qed.
 
 Lemma handle_events_mono : forall fx st c, ns_events st <= ns_events (snd (handle fx st c)).
 Proof.
-  intros fx st c. destruct c as [limit|e sigs|t present| |f snap blocks]; cbn [handle]; try (cbn [snd]; lia).
+  intros fx st c. destruct c as [limit de|e sigs|t present| |f snap blocks]; cbn [handle].
+  - destruct (negb (gate (ns_state st) true)); [cbn [snd]; lia|]. destruct (ns_locked st); cbn [snd]; lia.
   - destruct (negb (gate (ns_state st) false)); [cbn [snd]; lia|].
+    destruct (ns_locked st); [cbn [snd]; lia|].
     destruct (negb (we_read_ok e)); [cbn [snd]; lia|].
     destruct (event_verify fx (we_itxs e) (we_bsigs e) (we_creator e) (we_sig e) (we_sigok e)) as [[|]| | |];
       try (cbn [snd]; lia).
     destruct (negb (we_rest_ok e)); [cbn [snd]; lia|].
     destruct (process_sigpool fx (ns_pool st ++ sigs)) as [o' rest]. cbn [snd ns_events]. lia.
+  - destruct (negb (gate (ns_state st) false)); [cbn [snd]; lia|]. destruct (ns_locked st); cbn [snd]; lia.
+  - destruct (negb (gate (ns_state st) false)); [cbn [snd]; lia|]. destruct (ns_locked st); cbn [snd]; lia.
   - destruct (negb (ns_state st =? 1)); [cbn [snd]; lia|].
+    destruct (ns_locked st); [cbn [snd]; lia|].
     destruct (fx_restore fx); destruct (ff_check fx f) as [[]| | |]; try (cbn [snd set_app ns_events]; lia);
       destruct (fx_rehearse fx && negb (ff_insert_ok f)); try (cbn [snd set_app ns_events]; lia);
       destruct (negb (ff_insert_ok f)); cbn [snd set_app set_blocks ns_events]; lia.
@@ -401,42 +435,56 @@ Qed.
 Definition is_request (c : cmd) : bool :=
   match c with RFastForward _ _ _ => false | _ => true end.
 
-(* whatever request was answered without error before an arbitrary message is still answered
-   without error after it *)
+(* whatever request was answered without error before an arbitrary message - a sync request whose
+   eventDiff fails included - is still answered without error after it *)
 Lemma handle_still_serves : forall st c v,
+  ns_locked st = false ->
   is_request v = true ->
   fst (handle repaired st v) = Ok tt ->
   fst (handle repaired (snd (handle repaired st c)) v) = Ok tt.
 Proof.
-  intros st c v Hv Hok.
-  destruct (handle_frame repaired st c) as [Hs Hc].
+  intros st c v L Hv Hok.
+  destruct (handle_frame repaired st c) as [Hs [Hc Hl]].
   pose proof (handle_events_mono repaired st c) as Hm.
   set (st' := snd (handle repaired st c)) in *.
-  destruct v as [limit|e sigs|t present| |f snap blocks]; [| | | |discriminate]; cbn [handle] in *.
-  - cbn [fst] in *. rewrite Hs, Hc.
-    unfold sync_request in *. cbn [fx_limit repaired andb] in *.
-    destruct (negb (gate (ns_state st) true)); [discriminate|].
-    destruct (ns_events st <? 0) eqn:E0; [discriminate|].
-    apply Z.ltb_ge in E0.
-    replace (ns_events st' <? 0) with false by (symmetry; apply Z.ltb_ge; lia).
-    destruct (Z.ltb_spec 0 (ns_events st')) as [Hd|Hd]; [|reflexivity].
-    destruct (Z.min limit (ns_conf_limit st) <? 0) eqn:En.
-    + destruct (Z.ltb_spec 0 (ns_events st')) as [_|Hd']; [|reflexivity].
-      unfold slice_to. replace ((0 <? 0) || (ns_events st' <? 0)) with false; [reflexivity|].
-      symmetry; apply orb_false_iff; split; apply Z.ltb_ge; lia.
-    + destruct (Z.min limit (ns_conf_limit st) <? ns_events st') eqn:El; [|reflexivity].
-      unfold slice_to. apply Z.ltb_ge in En. apply Z.ltb_lt in El.
-      replace ((Z.min limit (ns_conf_limit st) <? 0) || (ns_events st' <? Z.min limit (ns_conf_limit st))) with false;
-        [reflexivity|].
-      symmetry; apply orb_false_iff; split; apply Z.ltb_ge; lia.
-  - rewrite Hs.
-    destruct (negb (gate (ns_state st) false)); [discriminate|].
+  rewrite L in Hl.
+  destruct v as [limit de|e sigs|t present| |f snap blocks]; [| | | |discriminate]; cbn [handle] in *;
+    rewrite Hs, Hl; rewrite L in Hok.
+  - destruct (negb (gate (ns_state st) true)); [discriminate|].
+    cbn [fst] in *. rewrite Hc.
+    destruct de.
+    + exact Hok.
+    + unfold sync_request in *. cbn [fx_limit repaired andb] in *.
+      destruct (negb (gate (ns_state st) true)); [discriminate|].
+      destruct (ns_events st <? 0) eqn:E0; [discriminate|].
+      apply Z.ltb_ge in E0.
+      replace (ns_events st' <? 0) with false by (symmetry; apply Z.ltb_ge; lia).
+      destruct (Z.ltb_spec 0 (ns_events st')) as [Hd|Hd]; [|reflexivity].
+      destruct (Z.min limit (ns_conf_limit st) <? 0) eqn:En.
+      * destruct (Z.ltb_spec 0 (ns_events st')) as [_|Hd']; [|reflexivity].
+        unfold slice_to. replace ((0 <? 0) || (ns_events st' <? 0)) with false; [reflexivity|].
+        symmetry; apply orb_false_iff; split; apply Z.ltb_ge; lia.
+      * destruct (Z.min limit (ns_conf_limit st) <? ns_events st') eqn:El; [|reflexivity].
+        unfold slice_to. apply Z.ltb_ge in En. apply Z.ltb_lt in El.
+        replace ((Z.min limit (ns_conf_limit st) <? 0) || (ns_events st' <? Z.min limit (ns_conf_limit st))) with false;
+          [reflexivity|].
+        symmetry; apply orb_false_iff; split; apply Z.ltb_ge; lia.
+  - destruct (negb (gate (ns_state st) false)); [discriminate|].
     destruct (negb (we_read_ok e)); [discriminate|].
     destruct (event_verify repaired (we_itxs e) (we_bsigs e) (we_creator e) (we_sig e) (we_sigok e)) as [[|]| | |];
       try discriminate.
     destruct (negb (we_rest_ok e)); [discriminate|].
     pose proof (process_sigpool_repaired_ok (ns_pool st' ++ sigs)) as H.
     destruct (process_sigpool repaired (ns_pool st' ++ sigs)) as [o rest]. exact H.
-  - cbn [fst] in *. rewrite Hs. exact Hok.
-  - cbn [fst] in *. rewrite Hs. exact Hok.
+  - destruct (negb (gate (ns_state st) false)); [discriminate|exact Hok].
+  - destruct (negb (gate (ns_state st) false)); [discriminate|reflexivity].
+Qed.
+
+(* a sync request whose eventDiff fails is answered with an error and changes nothing *)
+Lemma sync_diff_error_is_noop : forall fx st limit,
+  gate (ns_state st) true = true -> ns_locked st = false ->
+  handle fx st (CSync limit true) = (Err, st).
+Proof.
+  intros fx st limit G L. cbn [handle]. rewrite G, L. cbn [negb].
+  unfold sync_request. rewrite G. cbn [negb]. reflexivity.
 Qed.
